@@ -102,11 +102,16 @@ impl Scope {
   }
   /// Pushes a context on the top of the scope stack.
   pub fn push(&self, ctx: FeelContext) {
-    self.contexts.borrow_mut().push(ctx)
+    self.contexts.borrow_mut().push(ctx);
+    #[cfg(dmntk_verif)]
+    verif::emit("push", self.contexts.borrow().len(), "");
   }
   /// Takes and returns a context from the top of the stack.
   pub fn pop(&self) -> Option<FeelContext> {
-    self.contexts.borrow_mut().pop()
+    let popped = self.contexts.borrow_mut().pop();
+    #[cfg(dmntk_verif)]
+    verif::emit(if popped.is_some() { "pop" } else { "pop-empty" }, self.contexts.borrow().len(), "");
+    popped
   }
   /// Peeks a to context from the top of the stack.
   /// If the stack is empty, the default context is returned.
@@ -148,12 +153,47 @@ impl Scope {
     if let Some(context) = self.contexts.borrow_mut().last_mut() {
       context.set_entry(name, value);
     }
+    #[cfg(dmntk_verif)]
+    verif::emit("set", self.contexts.borrow().len(), &name.to_string());
   }
   /// Sets a null value for entry name in [FeelContext] placed on the top of the scope stack (last context).
   pub fn insert_null(&self, name: Name) {
+    #[cfg(dmntk_verif)]
+    let key = name.to_string();
     if let Some(context) = self.contexts.borrow_mut().last_mut() {
       context.set_null(name);
     }
+    #[cfg(dmntk_verif)]
+    verif::emit("set", self.contexts.borrow().len(), &key);
+  }
+}
+
+/// Verification hook H3: a thread-local sink for scope events `(operation, stack depth after it, entry name)`.
+/// Nothing is recorded unless [verif::start] was called on the current thread.
+#[cfg(dmntk_verif)]
+pub mod verif {
+  use std::cell::RefCell;
+
+  thread_local! {
+    static EVENTS: RefCell<Option<Vec<(&'static str, usize, String)>>> = const { RefCell::new(None) };
+  }
+
+  /// Starts recording scope events on the current thread.
+  pub fn start() {
+    EVENTS.with(|e| *e.borrow_mut() = Some(vec![]));
+  }
+
+  /// Stops recording and returns the recorded events.
+  pub fn take() -> Vec<(&'static str, usize, String)> {
+    EVENTS.with(|e| e.borrow_mut().take().unwrap_or_default())
+  }
+
+  pub(crate) fn emit(op: &'static str, depth: usize, key: &str) {
+    EVENTS.with(|e| {
+      if let Some(events) = e.borrow_mut().as_mut() {
+        events.push((op, depth, key.to_string()));
+      }
+    });
   }
 }
 
